@@ -26,14 +26,34 @@ type Lens[S, A any] interface {
 	Put(*S, A) *S
 }
 
-// container asserts that the lens container S is a struct type: a lens
-// addresses its focus as an offset from *S, which is meaningless for any other
-// type (e.g. a pointer to a struct).
-func container[S any]() {
+// container asserts that the lens container S is a struct type that holds the
+// focus t in its own memory: a lens addresses its focus as an offset from *S,
+// which is meaningless for any other type (e.g. a pointer to a struct).
+func container[S any](t hseq.Type[S]) {
 	cat := reflect.TypeOf(new(S)).Elem()
 	if cat.Kind() != reflect.Struct {
 		panic(fmt.Errorf("invalid type: %s is not a struct, it cannot be a container of Lens or Reflector", cat))
 	}
+	if !inplace(cat, 0, t.StructField, t.RootOffs+t.Offset) {
+		panic(fmt.Errorf("invalid focus: field %s is not stored inside %s, it is reached through an embedded pointer", t.Name, cat))
+	}
+}
+
+// inplace reports whether the field f sits at the offset offs of the struct
+// itself, directly or inside structs embedded by value. hseq also lists the
+// fields of structs embedded by pointer, those live in another memory block
+// and cannot be addressed as an offset from *S.
+func inplace(cat reflect.Type, base uintptr, f reflect.StructField, offs uintptr) bool {
+	for i := 0; i < cat.NumField(); i++ {
+		fv := cat.Field(i)
+		if base+fv.Offset == offs && fv.Name == f.Name && fv.Type == f.Type {
+			return true
+		}
+		if fv.Anonymous && fv.Type.Kind() == reflect.Struct && inplace(fv.Type, base+fv.Offset, f, offs) {
+			return true
+		}
+	}
+	return false
 }
 
 // NewLens instantiates a typed Lens[S, A] for hseq.Type[S]
@@ -42,7 +62,7 @@ func NewLens[S, A any](t hseq.Type[S]) Lens[S, A] {
 	fv := reflect.TypeOf(new(A)).Elem()
 
 	if ft.String() == fv.String() && ft.AssignableTo(fv) {
-		container[S]()
+		container[S](t)
 		return &lens[S, A]{t}
 	}
 
